@@ -302,6 +302,9 @@ fn torn_lengths(prev: u64, new: u64, rng: &mut Rng) -> Vec<u64> {
     v
 }
 
+/// pseudo torn-length: the directory that held the deleted partition is gone as well
+const DIR_GONE: u64 = u64::MAX;
+
 struct Verdict {
     started: bool,
 }
@@ -315,6 +318,15 @@ async fn recover(h: &Hist, img: &Image, torn: Option<u64>, cache: CacheMode, rep
         json!({"image": img.n, "taken_after": img.kind, "file": img.file.rsplit("/live/").next(), "previous_len": img.prev_len, "len": img.new_len, "cut_to": torn,
             "operation_in_flight": img.snap.inflight, "operations_completed": img.snap.ops_done, "detail": extra})
     };
+    let dir_gone = torn == Some(DIR_GONE);
+    let torn = if dir_gone { None } else { torn };
+    if dir_gone {
+        let rel = img.file.strip_prefix(h.dir.to_str().unwrap()).unwrap_or(&img.file);
+        let target = work.join(rel.trim_start_matches('/'));
+        if let Some(parent) = target.parent() {
+            let _ = std::fs::remove_dir_all(parent);
+        }
+    }
     if let Some(t) = torn {
         let rel = img.file.strip_prefix(h.dir.to_str().unwrap()).unwrap_or(&img.file);
         let target = work.join(rel.trim_start_matches('/'));
@@ -591,6 +603,22 @@ pub async fn run(ctx: &Ctx, rep: &mut ShardReport) {
                             stop = true;
                             break;
                         }
+                    }
+                }
+            }
+            // remove_dir_all of the topic directory deletes "partitions" before the topic directory itself: the instant in between
+            // has no file event of its own, it is derived from the image taken after a partition directory went away
+            if !stop && img.kind == "partition_delete" && img.snap.inflight.starts_with("delete_topic") {
+                rep.event("image_partitions_dir_removed");
+                match recover(&h, img, Some(DIR_GONE), cache, rep, &work, &mut rng).await {
+                    Ok(v) => {
+                        if v.started {
+                            rep.event("untorn_image_recovered_ok");
+                        }
+                    }
+                    Err(v) => {
+                        rep.violation(v);
+                        stop = true;
                     }
                 }
             }
